@@ -72,12 +72,19 @@ def explore(ck: Check, max_w: int, n_random: int) -> None:
         pics = {k: pictures_for_width(k, w) for k in ("packed", "zoned")}
         if w == 3:
             pics = {k: v[:2] for k, v in pics.items()}
-        for tup in itertools.product(range(256), repeat=w):
+        if w == 3:
+            # width 3: every first and last byte, the middle byte over a set in which every nibble value occurs in both halves
+            mid = [x * 0x11 for x in range(16)] + [0x09, 0x90, 0x0A, 0xA0, 0x9F, 0xF9, 0x5C, 0xC5]
+            space: Any = itertools.product(range(256), mid, range(256))
+        else:
+            space = itertools.product(range(256), repeat=w)
+        for tup in space:
             buf = bytes(tup)
             for kind in ("packed", "zoned"):
                 for (s, m, n) in pics[kind]:
                     add(kind, s, m, n, buf, f"{kind}/width-{w}-exhaustive")
-        ck.exhaustive_parts.append(f"all {256**w} byte strings of width {w} x {sum(len(v) for v in pics.values())} packed/zoned pictures of that width")
+        ck.exhaustive_parts.append((f"all {256**w} byte strings of width {w}" if w < 3 else "all 256 x 24 x 256 byte strings of width 3 (every nibble value in "
+                                    "every position)") + f" x {sum(len(v) for v in pics.values())} packed/zoned pictures of that width")
     for _ in range(n_random):
         kind = rng.choice(["packed", "zoned"])
         d = rng.randint(1, 31 if kind == "packed" else 18)
@@ -105,7 +112,8 @@ def explore(ck: Check, max_w: int, n_random: int) -> None:
 
 
 def run(ck: Check) -> int:
-    ck.rule = ("every byte string of width 1..W for every packed/zoned picture laid out in that width (W=2 quick, 3 thorough), plus random, "
+    ck.rule = ("every byte string of width 1..2 for every packed/zoned picture laid out in that width (thorough: also width 3 with every first and "
+               "last byte and 24 middle bytes covering every nibble value in both halves), plus random, "
                "nibble-boundary and one-byte-corrupted buffers up to 31 packed / 18 zoned digits; distinct by (picture, buffer); every case is "
                "non-trivial (most buffers are invalid encodings by construction)")
     ck.trusted_extra = ["shared with C02: Decimal triple construction, nibble arithmetic on bytes 0..255"]
